@@ -115,7 +115,14 @@ def run(ctx):
     else:
         cases = cases + [dict(c, seed=rng.getrandbits(32)) for c in cases if c['kind'] in ('truncate', 'bitflip', 'garbage', 'lenfield', 'innerlen')] * 3
 
-    import random
+    # the same probe-phase faults under the other modes that run the probes: policy audit (-P) and policy creation (-M)
+    probe_faults = [c for c in cases if c['phase'] not in ('first', 'all') and c['kind'] in ('close', 'stall', 'truncate', 'wrongtype', 'garbage', 'zeropayload', 'lenfield')]
+    extra = []
+    for i, c in enumerate(rng.sample(probe_faults, min(len(probe_faults), 48)) if q else probe_faults):
+        extra.append(dict(c, mode='policy' if i % 3 else 'make'))
+    cases = cases + extra
+    import os, random, tempfile
+    tmpd = tempfile.mkdtemp(prefix='verif_c09_')
 
     def do(z, c):
         spec = dict(arch[c['arch']])
@@ -131,7 +138,8 @@ def run(ctx):
         srv = P.new_ssh2_server(spec, faults=faults, segment=c['seg'], stall_limit=4.0)
         t0 = time.time()
         try:
-            res = z.run(['-n', '--skip-rate-test', '-t', str(TIMEOUT), '127.0.0.1:%d' % srv.port], timeout=90)
+            mode_opts = {'std': [], 'policy': ['-P', 'Hardened OpenSSH Server v9.9 (version 1)'], 'make': ['-M', os.path.join(tmpd, 'p%d_%d.txt' % (c['seed'], id(c) % 100000))]}[c.get('mode', 'std')]
+            res = z.run(['-n', '--skip-rate-test', '-t', str(TIMEOUT)] + mode_opts + ['127.0.0.1:%d' % srv.port], timeout=90)
             wall = time.time() - t0
             time.sleep(0.02)
             return {'rc': res['rc'], 'out': res['out'], 'err': res['err'], 'timed_out': res['timed_out'], 'wall': wall, 'conns': srv.conns()}
@@ -144,8 +152,9 @@ def run(ctx):
     for c, r in zip(cases, results):
         desc = {k: c[k] for k in ('arch', 'conn', 'msg', 'label', 'kind', 'phase', 'seed', 'seg')}
         desc['op'] = 'cli-fault'
+        desc['mode'] = c.get('mode', 'std')
         rep = has_report(r['out'])
-        nontriv.add((c['arch'], c['phase'], c['label'], c['kind'], r['rc'], rep))
+        nontriv.add((c['arch'], c['phase'], c['label'], c['kind'], r['rc'], rep, desc['mode']))
         where = 'first' if c['phase'] == 'first' else 'probe'
         if r['timed_out']:
             ctx.violation('hang/%s/%s' % (where, c['kind']), 'audit did not terminate (fault %s on %s message %r of a %s connection)' % (c['kind'], c['arch'], c['label'], c['phase']), desc)
@@ -159,6 +168,8 @@ def run(ctx):
         budget = TIMEOUT * (r['conns'] + 2) * 2.0 + 4.0
         if r['wall'] > budget:
             ctx.violation('slow/%s/%s' % (where, c['kind']), 'audit took %.1fs for %d connections with timeout %ds' % (r['wall'], r['conns'], TIMEOUT), desc)
+        if desc['mode'] != 'std':
+            continue   # policy modes print a verdict / write a file instead of the algorithm report: termination and a documented status are what is judged
         if c['kind'] in ('segment1', 'debug-in-probes', 'prebanner') or where == 'probe':
             # handshake well-formed: misbehaviour confined to probes must leave a complete report
             if c['kind'] == 'bitflip' and c['phase'] == 'first':
@@ -170,6 +181,8 @@ def run(ctx):
                 # the first connection's banner/KEXINIT was damaged: no report, status 1 -- unless the damage left a well-formed message
                 if c['kind'] in ('close', 'stall', 'garbage', 'zeropayload', 'wrongtype', 'badblock') or (c['kind'] == 'truncate'):
                     ctx.violation('bad-handshake-reported/%s' % c['kind'], 'fault %s on the %s of the first connection (%s): status %r, report shown: %r' % (c['kind'], c['label'], c['arch'], r['rc'], rep), desc)
+    import shutil
+    shutil.rmtree(tmpd, ignore_errors=True)
     ctx.cover(len(cases), nontriv, [{k: cases[0][k] for k in ('arch', 'conn', 'label', 'kind', 'phase')}],
               'for each transcript archetype (ed25519, RSA, certificates, GEX, GEX-first) every (connection, message, fault) triple: close, stall, truncation, garbage, packet length field, inner length field, wrong type, zero payload, bit flips, bad block size; plus 1-byte segmentation, debug messages in probes, pre-banner lines; -t 1; non-trivial = distinct (archetype, phase, message, fault, status, report shown)')
 
